@@ -22,7 +22,7 @@ PROP = "C18"
 LEVEL = "exploration"
 
 # ---------------------------------------------------------------- #expr reference
-BIN = {"e": 9, "^": 7, "*": 6, "/": 6, "div": 6, "mod": 6, "+": 5, "-": 5, "round": 4, "=": 3, "!=": 3, "<>": 3, "<": 3,
+BIN = {"e": 9, "^": 7, "*": 6, "/": 6, "div": 6, "mod": 6, "fmod": 6, "+": 5, "-": 5, "round": 4, "=": 3, "!=": 3, "<>": 3, "<": 3,
        ">": 3, "<=": 3, ">=": 3, "and": 2, "or": 1}
 UN_SIGN = {"-": 9, "+": 9}
 UN_FN = {k: 8 for k in ("not", "ceil", "trunc", "floor", "abs", "sqrt", "exp", "ln", "sin", "cos", "tan", "acos", "asin", "atan")}
@@ -63,6 +63,8 @@ def fold(e):
         if tb == 0:
             raise ZeroDivisionError("mod by a value that truncates to zero")
         return int(math.fmod(ta, tb))
+    if op == "fmod":
+        return math.fmod(a, b)      # floating-point remainder, sign of the dividend (documented multiplicative operator)
     if op == "+":
         return a + b
     if op == "-":
@@ -287,9 +289,66 @@ def string_cases(tier):
             yield "{{#titleparts:%s|%d}}" % (t, a), r_titleparts(t, a)
             for b in INTS:
                 yield "{{#titleparts:%s|%d|%d}}" % (t, a, b), r_titleparts(t, a, b)
+    # all arguments of these functions are trimmed (needle, delimiter, replacement, pad), as the first one is
+    for fn, args, want in (("#pos", ["abc", " b "], "1"), ("#rpos", ["abcb", " b "], "3"), ("#replace", ["abc", " b ", " x "], "axc"),
+                           ("#explode", ["a,b,c", " , ", "1"], "b"), ("padleft", ["x", "3", " ab "], "abx"),
+                           ("padright", ["x", "3", " ab "], "xab"), ("#replace", ["a_b\n", "_\n", "x"], "axb"),
+                           ("#sub", [" abc ", " 1 ", " 1 "], "b")):
+        yield "{{%s:%s}}" % (fn, "|".join(args)), want
+    # #ifexpr: any non-zero value is true
+    for e, want in (("0.5", "y"), ("1/2", "y"), ("-0.5", "y"), ("0", "n"), ("0.0", "n"), ("1", "y"), ("2-2", "n"), ("10/4", "y"), ("", "n")):
+        yield "{{#ifexpr:%s|y|n}}" % e, want
+    # plural with fewer forms than needed: the last form is used
+    for n, forms, want in (("2", "page", "page"), ("1", "page", "page"), ("0", "page", "page"), ("2", "page|pages", "pages")):
+        yield "{{plural:%s|%s}}" % (n, forms), want
     for n, want in (("0", "many"), ("1", "one"), ("2", "many"), ("1.0", "one"), ("01", "one"), ("-1", "many"), ("1+0", "one"),
                     ("3-2", "one"), ("", "many")):
         yield "{{plural:%s|one|many}}" % n, want
+
+
+MALFORMED_ALPHA = ["1", "2", "+", "*", "(", ")", "pi", "-", "not", ",", "fmod"]
+
+
+def wellformed_expr(toks):
+    """Recognises  E := U (B U)* ;  U := unary* atom ;  atom := number | pi | ( E )  over MALFORMED_ALPHA."""
+    pos = [0]
+
+    def atom():
+        if pos[0] >= len(toks):
+            return False
+        t = toks[pos[0]]
+        if t in ("1", "2", "pi"):
+            pos[0] += 1
+            return True
+        if t == "(":
+            pos[0] += 1
+            if not expr() or pos[0] >= len(toks) or toks[pos[0]] != ")":
+                return False
+            pos[0] += 1
+            return True
+        return False
+
+    def unary():
+        while pos[0] < len(toks) and toks[pos[0]] in ("-", "+", "not"):
+            pos[0] += 1
+        return atom()
+
+    def expr():
+        if not unary():
+            return False
+        while pos[0] < len(toks) and toks[pos[0]] in ("+", "*", "-", "fmod"):
+            pos[0] += 1
+            if not unary():
+                return False
+        return True
+
+    return expr() and pos[0] == len(toks)
+
+
+def malformed_cases():
+    for n in (1, 2, 3, 4):
+        for toks in itertools.product(MALFORMED_ALPHA, repeat=n):
+            yield " ".join(toks), wellformed_expr(list(toks))
 
 
 def locales():
@@ -370,6 +429,23 @@ def work(payload, skip, report):
             if i % 50021 == 0:
                 acc.sample({"expr": rmin(e), "value": want})
         close_ctx(ctx)
+    elif kind == "malformed":
+        _, k, n = payload
+        ctx = new_ctx()
+        for i, (text, ok) in enumerate(itertools.islice(malformed_cases(), k, None, n)):
+            report(i)
+            ctx.start_page("Tt")
+            try:
+                got = ctx.expand("{{#expr:" + text + "}}")
+            except Exception as ex:
+                got = "EXC " + type(ex).__name__
+            acc.case()
+            is_err = 'class="error"' in got or got.startswith("EXC")
+            if ok and is_err:
+                acc.violation("wellformed_expr_has_value", {"input": "{{#expr:" + text + "}}"}, got[:120], "a number")
+            if not ok and not is_err:
+                acc.violation("malformed_expr_is_error", {"input": "{{#expr:" + text + "}}"}, got[:120], "an expression error element")
+        close_ctx(ctx)
     elif kind == "str":
         _, tier, k, n = payload
         ctx = new_ctx()
@@ -434,6 +510,8 @@ def main(run):
     n = 64
     for k in range(n):
         chunks.append(("str", run.tier, k, n))
+    for k in range(16):
+        chunks.append(("malformed", k, 16))
     locs = locales()
     for k in range(16):
         if locs[k::16]:
@@ -449,7 +527,8 @@ def main(run):
         "locales": len(locs),
         "rule": "#expr: every AST of depth <= 2 over all %d binary and %d unary operators and 3 atoms%s, each rendered minimally "
                 "parenthesised (from the documented precedence table), fully parenthesised and with spacing/letter-case variation, "
-                "compared with an independent fold (ill-defined ones belong to C05); string functions: every string of length <= %s "
+                "compared with an independent fold (ill-defined ones belong to C05); every token string of length <= 4 over 11 symbols must be an "
+                "expression error iff it is not derivable from the expression grammar; string functions: every string of length <= %s "
                 "over {a,b,blank} x search strings x all offsets/lengths/counts in [-10,10]; #titleparts grids; plural; formatnum|R "
                 "round trip for all %d shipped locales x %d numeral shapes. distinct = distinct (function, value) pairs."
                 % (len(BIN), len(unops), "" if q else " plus depth 3 (binary root, one operand of depth <= 2 and the other of depth <= 1, both orders) over operators of adjacent precedence levels", "4" if q else "6",
